@@ -54,7 +54,8 @@ impl FastDivision {
         }
         
         let shift = (32 - divisor.leading_zeros()) as u8;
-        let multiplier = ((1u64 << (32 + shift)) + divisor as u64 - 1) / divisor as u64;
+        // Widened arithmetic: for divisors >= 2^31 the shift reaches 64 bits
+        let multiplier = (((1u128 << (32 + shift as u32)) + divisor as u128 - 1) / divisor as u128) as u64;
         
         Self { divisor, multiplier, shift }
     }
@@ -65,7 +66,7 @@ impl FastDivision {
         if self.divisor <= 1 {
             return dividend;
         }
-        ((dividend as u64 * self.multiplier) >> (32 + self.shift)) as u32
+        ((dividend as u128 * self.multiplier as u128) >> (32 + self.shift as u32)) as u32
     }
     
     /// Fast modulo operation
